@@ -22,9 +22,11 @@ func (db *DB) AgentAdd(agent *agent.Agent) error {
 	/* check if it's a new db */
 	if db.Existed() {
 
-		/* check if agent already exists */
+		/* the agent already has a row: either it is being restored from this database, or it
+		 * registers again after it was disconnected / marked dead and the teamserver restarted.
+		 * bring the row up to date (Active, keys, metadata) instead of leaving the old one */
 		if db.AgentExist(int(AgentID)) {
-			return nil
+			return db.AgentUpdate(agent)
 		}
 
 	} else {
